@@ -976,8 +976,10 @@ def main():
                 live_note = '; %d of the first %d disagreeing cases agree with recv_sec_live (iteration over the live block list)' % (same, len(live))
             except CoqError:
                 pass
-        chk.obligation('correspondence:recv_bundle-vs-BpSecChain.recv_sec', not disagree,
-                       '%d of %d cases disagree; first: %r%s' % (len(disagree), len(runs), [(t, w, g) for (t, _c, w, g) in disagree[:1]], live_note))
+        detail = '%d of %d cases disagree; first: %r%s' % (len(disagree), len(runs), [(t, w, g) for (t, _c, w, g) in disagree[:1]], live_note)
+        chk.obligation('correspondence:recv_bundle-vs-BpSecChain.recv_sec', not disagree, detail)
+        if disagree:
+            print('# correspondence real code vs model: ' + detail[:700])
     else:
         chk.obligation('correspondence:recv_bundle-vs-BpSecChain.recv_sec', False, 'model evaluation failed: ' + model_err)
 
